@@ -226,6 +226,60 @@ Section BuildPlan.
     apply in_map_iff in H1. destruct H1 as [l [<- Hl]]. apply filter_In in Hl. exists l. tauto.
   Qed.
 
+  (* ---- the references of a valid manifest are among its dependencies in the graph ----------------- *)
+  Lemma g_deps_first (g : graph) v ds : NoDup (map fst g) -> In (v, ds) g -> g_deps g v = ds.
+  Proof.
+    induction g as [|[v' ds'] t IH]; intros N H; [destruct H|]. cbn [g_deps]. cbn [map fst] in N.
+    inversion N as [|? ? Hn Nt]; subst. destruct H as [[= -> ->]|H]; [rewrite Nat.eqb_refl; reflexivity|].
+    destruct (Nat.eqb v' v) eqn:EQ; [|exact (IH Nt H)].
+    apply Nat.eqb_eq in EQ. subst v'. exfalso. apply Hn. apply in_map_iff. exists (v, ds). auto.
+  Qed.
+
+  Lemma dep_edges_clean ids : forall deps seen e, dep_edges ids seen deps = (e, false) -> e = deps.
+  Proof.
+    induction deps as [|d t IH]; intros seen e H; cbn [dep_edges] in H; [injection H as <-; reflexivity|].
+    destruct (memn d seen); [destruct (dep_edges ids seen t); discriminate|].
+    destruct (negb (memn d ids)); [destruct (dep_edges ids (d :: seen) t); discriminate|].
+    destruct (dep_edges ids (d :: seen) t) as [e' b] eqn:E. injection H as <- ->. f_equal. exact (IH _ _ E).
+  Qed.
+
+  Lemma bp_graph_anatomy :
+    let all := applyA ++ pruneA in
+    let ids := map p_id all in
+    pl_graph pl = map (fun p => (p_id p, fst (edges_of sc ids p))) all /\
+    forall p, In p all -> snd (edges_of sc ids p) = true -> In (p_id p) (pl_invalid pl).
+  Proof.
+    cbv zeta. unfold build_plan. cbv zeta. fold finv. fold applyA. fold pruneA.
+    match goal with |- context [kahn ?n ?g ?r] => destruct (kahn n g r) as [layers cyc] end.
+    cbn [pl_graph pl_invalid]. split.
+    - rewrite map_map. reflexivity.
+    - intros p Hp Hb. apply (dedup_In nat Nat.eqb nat_eqb_spec). apply in_or_app. right. apply in_or_app. left.
+      apply in_map_iff. exists (p_id p, edges_of sc (map p_id (applyA ++ pruneA)) p). split; [reflexivity|].
+      apply filter_In. split; [|exact Hb]. apply in_map_iff. exists p. auto.
+  Qed.
+
+  Lemma bp_refs_in_graph p l : In p (pl_apply pl) -> p_local p = Some l ->
+    incl (l_deps l) (g_deps (pl_graph pl) (p_id p)).
+  Proof.
+    intros Hp EL. destruct (bp_apply_in_applyA p Hp) as [HA NI].
+    destruct bp_graph_anatomy as [EG BAD]. cbv zeta in EG, BAD.
+    assert (Hall : In p (applyA ++ pruneA)) by (apply in_or_app; left; exact HA).
+    set (ids := map p_id (applyA ++ pruneA)) in *.
+    assert (NB : snd (edges_of sc ids p) = false).
+    { destruct (snd (edges_of sc ids p)) eqn:E; [|reflexivity]. exfalso. exact (NI (BAD p Hall E)). }
+    assert (GD : g_deps (pl_graph pl) (p_id p) = fst (edges_of sc ids p)).
+    { rewrite EG. apply g_deps_first.
+      - rewrite map_map. cbn [fst]. exact all_ids_NoDup.
+      - apply in_map_iff. exists p. auto. }
+    rewrite GD. unfold applyA in HA. apply in_map_iff in HA. destruct HA as [l0 [<- _]].
+    cbn [p_local pobj_of_local] in EL. injection EL as ->.
+    unfold edges_of in *. cbn [p_baddep p_deps p_id pobj_of_local] in *.
+    destruct (l_baddep l); [cbn [snd] in NB; discriminate|].
+    destruct (dep_edges ids [] (l_deps l)) as [e b] eqn:DE. cbn [fst snd] in *. subst b.
+    rewrite (dep_edges_clean ids _ _ _ DE).
+    intros x Hx. apply (dedup_In nat Nat.eqb nat_eqb_spec). apply in_or_app. right. apply in_or_app. right. exact Hx.
+  Qed.
+
   Lemma bp_prune_all_eq : pl_prune_all pl = pruneA.
   Proof. destruct bp_anatomy as [layers [cyc [_ [_ [_ [_ [E _]]]]]]]. exact E. Qed.
 
@@ -370,7 +424,7 @@ Section Tasks.
       by (intros; eapply H; [right; eassumption|assumption]).
     assert (Hw : forall j, In j (map p_id l) -> In j (apply_ids pl)).
     { intros j Hj. apply in_map_iff in Hj. destruct Hj as [p [<- Hp]].
-      rewrite Forall_forall in Hl. destruct (Hl p Hp) as [l0 [_ [_ X]]]. exact X. }
+      rewrite Forall_forall in Hl. destruct (Hl p Hp) as [l0 [_ [_ [X _]]]]. exact X. }
     destruct (is_dry (o_dry (sc_opts sc))).
     - specialize (IH Ht (S ka) kw rest HR). destruct (apply_tasks sc (S ka) kw t) as [ts kw']. cbn [fst] in *.
       cbn. auto.
@@ -397,9 +451,11 @@ Section Tasks.
   Proof.
     intros HLy Hp. destruct (bp_anatomy sc known locals pobjs) as [layers [cyc [_ [_ [_ [_ [_ [LA _]]]]]]]].
     rewrite LA in HLy. pose proof (hydrate_In' _ _ _ _ HLy Hp) as Hin.
+    pose proof (bp_refs_in_graph sc known locals pobjs HL HP HD p) as RG.
     destruct (bp_apply_is_local sc known locals pobjs p Hin) as [l [-> _]].
-    exists l. split; [reflexivity|]. split; [reflexivity|]. unfold apply_ids. apply in_map_iff.
-    exists (pobj_of_local l). auto.
+    exists l. split; [reflexivity|]. split; [reflexivity|]. split.
+    - unfold apply_ids. apply in_map_iff. exists (pobj_of_local l). auto.
+    - apply RG; [exact Hin|reflexivity].
   Qed.
 
   Lemma sched_tasks_of : (o_destroy (sc_opts sc) = true -> pl_apply pl = []) -> sched sc pl P0 (tasks_of sc pl).
